@@ -35,6 +35,11 @@ impl MioListener {
     }
 
     pub(crate) fn accept(&self) -> io::Result<MioStream> {
+        #[cfg(actix_net_verif)]
+        if let Some(err) = verif_inject::take(self) {
+            return Err(err);
+        }
+
         match *self {
             MioListener::Tcp(ref lst) => lst.accept().map(|(stream, _)| MioStream::Tcp(stream)),
             #[cfg(unix)]
@@ -290,5 +295,46 @@ mod tests {
             assert!(format!("{:?}", lst).contains("/tmp/sock.xxxxx"));
             assert!(format!("{}", lst).contains("/tmp/sock.xxxxx"));
         }
+    }
+}
+
+/// Verification hook (only with `--cfg actix_net_verif`): one-shot accept-error injection.
+#[cfg(actix_net_verif)]
+pub(crate) mod verif_inject {
+    use std::{cell::RefCell, collections::VecDeque, io, os::unix::io::AsRawFd};
+
+    use super::MioListener;
+
+    thread_local! {
+        static INJECTED: RefCell<Vec<(i32, VecDeque<io::Error>)>> = const { RefCell::new(Vec::new()) };
+    }
+
+    pub(crate) fn fd(lst: &MioListener) -> i32 {
+        match lst {
+            MioListener::Tcp(l) => l.as_raw_fd(),
+            MioListener::Uds(l) => l.as_raw_fd(),
+        }
+    }
+
+    /// the next `accept()` on `lst` (in this thread) returns `err` instead of calling the OS
+    pub(crate) fn inject(lst: &MioListener, err: io::Error) {
+        let fd = fd(lst);
+        INJECTED.with(|q| {
+            let mut q = q.borrow_mut();
+            match q.iter_mut().find(|(f, _)| *f == fd) {
+                Some((_, v)) => v.push_back(err),
+                None => q.push((fd, VecDeque::from([err]))),
+            }
+        })
+    }
+
+    pub(crate) fn take(lst: &MioListener) -> Option<io::Error> {
+        let fd = fd(lst);
+        INJECTED.with(|q| q.borrow_mut().iter_mut().find(|(f, _)| *f == fd).and_then(|(_, v)| v.pop_front()))
+    }
+
+    pub(crate) fn pending(lst: &MioListener) -> usize {
+        let fd = fd(lst);
+        INJECTED.with(|q| q.borrow().iter().find(|(f, _)| *f == fd).map_or(0, |(_, v)| v.len()))
     }
 }
